@@ -169,6 +169,29 @@ def int_to_intc_unresolvable(src: str) -> Optional[Tuple[str, Dict[int, int]]]:
     return "\n".join(out) + "\n", m
 
 
+def int_to_intc_decoy(src: str) -> Optional[Tuple[str, Dict[int, int]]]:
+    """The entry block loads a DECOY constant block (the real constants rotated by one); the real
+    block is re-loaded immediately before every intc.  The AVM uses the block loaded last, so the
+    meaning is unchanged; a tool that resolves intc from the entry block alone reads wrong
+    constants."""
+    r = int_to_intc(src)
+    if r is None:
+        return None
+    ls = _lines(r[0])
+    real = ls[1]
+    consts = real.split(" ")[1:]
+    decoy = consts[1:] + consts[:1] if len(set(consts)) > 1 else [str(int(consts[0]) + 1)] * len(consts)
+    out = [ls[0], "intcblock " + " ".join(decoy)]
+    pos = {1: 1, 2: 2}
+    for i, l in enumerate(ls[2:], start=3):
+        if l.startswith("intc"):
+            out.append(real)
+        out.append(l)
+        pos[i] = len(out)
+    m = {k: pos[v] for k, v in r[1].items() if v in pos}
+    return "\n".join(out) + "\n", m
+
+
 def pad_statements(src: str) -> Optional[Tuple[str, Dict[int, int]]]:
     """Insert `int 7; pop` at statement boundaries: before a line at which the block-local
     stack depth is 0, that is not a label and does not follow a branch/terminator/label-less
